@@ -12,7 +12,7 @@ import (
 
 func init() {
 	register("C20", runC20, propMeta{
-		Explanation: "Decides the provenance of every cited source position and that the listed fault classes cannot fail without one: (L1) every AST node type whose methods read SourceCode.LineNum has, in the listener's exit handler for its grammar rule, stores of LineNum, Column and Code on the node just popped; (L2) the stored line is ctx.GetStart().GetLine() and the column ctx.GetStart().GetColumn() of the handler's own parse context, the code ctx.GetText(), with no arithmetic, not GetStop() and not another context; the three compile pipelines feed the complete text to one input stream (C10-K1), so ANTLR's 1-based token line is relative to the whole text; (L3) every error created in an evaluator of a citing node type (errors.New / fmt.Errorf, including the recover literals) is formatted `line %d, column...` with the receiver's own LineNum and Column as its first two arguments — one named exception: the unreachable fall-through of ExpressionAtom.Evaluate; (L4) citing closure, greatest fixpoint over the evaluator call graph: every non-nil error returned by Assignment, FunctionCall, MethodCall, ThreeLevelCall, MathExpression and Expression evaluation is created there with the receiver's position, or passed on unchanged from a callee that itself always cites; errors of DataContext and core functions, which carry no position, must therefore be wrapped. (L5) an error that cites a node other than the evaluator's own receiver cites the node whose Evaluate result the guarding tests examine. Not decided: the wording of messages; ANTLR's own line counting (trusted to be 1-based). A node of a type that cites its position is allocated only in a handler of the listener.",
+		Explanation: "Decides the provenance of every cited source position and that the listed fault classes cannot fail without one: (L1) every AST node type whose methods read SourceCode.LineNum has, in the listener's exit handler for its grammar rule, stores of LineNum, Column and Code on the node just popped; (L2) the stored line is ctx.GetStart().GetLine() and the column ctx.GetStart().GetColumn() of the handler's own parse context, the code ctx.GetText(), with no arithmetic, not GetStop() and not another context; the three compile pipelines feed the complete text to one input stream (C10-K1), so ANTLR's 1-based token line is relative to the whole text; (L3) every error created in an evaluator of a citing node type (errors.New / fmt.Errorf, including the recover literals) is formatted `line %d, column...` with the receiver's own LineNum and Column as its first two arguments — one named exception: the unreachable fall-through of ExpressionAtom.Evaluate; (L4) citing closure, greatest fixpoint over the evaluator call graph: every non-nil error returned by Assignment, FunctionCall, MethodCall, ThreeLevelCall, MathExpression and Expression evaluation is created there with the receiver's position, or passed on unchanged from a callee that itself always cites; errors of DataContext and core functions, which carry no position, must therefore be wrapped. (L5) an error that cites a node other than the evaluator's own receiver cites the node whose Evaluate result the guarding tests examine. Not decided: the wording of messages; ANTLR's own line counting (trusted to be 1-based). A node of a type that cites its position is allocated only in a handler of the listener. (L8) in core.Add / Sub / Mul / Div a reflect method that works on every kind and faults only on a missing value (Type, Interface, ...) is called on an operand only under a positive test of that operand's kind, so the table reports an ill-typed operation instead of faulting on an operand without a value.",
 		Assumptions: []string{"antlr Token.GetLine is 1-based and counts from the start of the input stream"},
 		Trusted:     commonTrusted,
 	})
@@ -531,6 +531,14 @@ func runC20(c *Ctx) {
 				return
 			}
 			n++
+			// the accessors of one family of kinds (Int, Uint, Float, ...) are by their nature called where
+			// the kind is known, however the code came to know it (a class worked out by a helper, a table):
+			// E2 decides those rows. What is asked here is about the methods that work on every kind and
+			// fault only on "no value": Type, Interface and the like
+			switch nm {
+			case "Int", "Uint", "Float", "Complex", "Bool", "Len", "Elem", "IsNil", "Bytes", "Index", "MapIndex", "MapKeys", "NumField", "Field":
+				return
+			}
 			okG := false
 			for _, g := range x.GuardsOf(call.Block()) {
 				cond, pol := g.Cond, g.Pol
